@@ -410,10 +410,15 @@ func runC05(c *Ctx, ambient bool) {
 		day := 24 * time.Hour
 		recentTips := []string{"HEAD"}
 		if refsDays > 0 {
-			out, _ := w.GitQ(u1, "for-each-ref", "--format=%(refname) %(objectname)", "refs/heads")
+			// branches, tags (lightweight and annotated) and the prune remote's
+			// tracking refs are all refs; annotated tags count by the commit they name
+			out, _ := w.GitQ(u1, "for-each-ref", "--format=%(refname) %(objectname) %(*objectname)", "refs/heads", "refs/tags", "refs/remotes/"+pruneRemote)
 			for _, l := range strings.Split(strings.TrimSpace(out), "\n") {
 				f := strings.Fields(l)
-				if len(f) != 2 {
+				if len(f) == 3 {
+					f = []string{f[0], f[2]}
+				}
+				if len(f) != 2 || strings.HasSuffix(f[0], "/HEAD") {
 					continue
 				}
 				d, ok := w.commitDay(u1, f[1])
